@@ -143,7 +143,7 @@ fn any_invlpgb() -> Invlpgb {
 }
 
 macro_rules! broadcast_harness {
-    ($name:ident, $S:ty) => {
+    ($name:ident, $S:ty, $LIMIT:expr) => {
         /// First 3 requests of EVERY range (then the path is cut): since the loop state is only
         /// (start, end), every later iteration is the first iteration of another admissible range.
         #[kani::proof]
@@ -197,13 +197,13 @@ macro_rules! broadcast_harness {
                 WANT_EDX = want_edx;
             }
             m().on_invlpgb = Some(on_request);
-            m().invlpgb_limit = 3;
+            m().invlpgb_limit = $LIMIT;
             b.flush();
             // reached only by ranges that need at most 3 requests: they are covered completely
             vp!(C11, unsafe { CUR == END }, "the requests do not cover every page of the range exactly");
             vp!(C11, (m().n_invlpgb == 0) == (e <= s), "an empty range issued a request / a non-empty one issued none");
             vp!(C11, m().arch_eq(&before) && m().clean(), "broadcast flush changed machine state");
-            kani::cover!(m().n_invlpgb == 3);
+            kani::cover!(m().n_invlpgb == $LIMIT);
             kani::cover!(m().n_invlpgb == 2 && s < HALF && e >= UPPER_BASE);
             kani::cover!(m().n_invlpgb == 1 && inv.invlpgb_count_max == 0);
             kani::cover!(e <= s);
@@ -211,8 +211,10 @@ macro_rules! broadcast_harness {
         }
     };
 }
-broadcast_harness!(c11_broadcast_range_4k, Size4KiB);
-broadcast_harness!(c11_broadcast_range_2m, Size2MiB);
+broadcast_harness!(c11_broadcast_range_4k, Size4KiB, 3);
+broadcast_harness!(c11_broadcast_range_2m, Size2MiB, 3);
+broadcast_harness!(c11t_broadcast_range_4k_6req, Size4KiB, 6);
+broadcast_harness!(c11t_broadcast_range_2m_6req, Size2MiB, 6);
 
 #[kani::proof]
 fn c11_broadcast_without_range() {
